@@ -410,6 +410,8 @@ func runStack(id string, toks []string) (res string) {
 			} else {
 				emit(fmt.Sprintf("B=%d", r.status))
 			}
+		case "STORM":
+			emit(w.eventStorm(p[1], p[2]))
 		case "VR":
 			emit(w.verifyReplay(p[1], p[2]))
 		case "RACE":
@@ -1079,4 +1081,79 @@ func dialSharedSource(port int) (*ctlConn, *ctlConn, error) {
 		return cc
 	}
 	return mk(c1), mk(c2), nil
+}
+
+// eventStorm: STORM:<conn>:<n>   the connection (verified, subscribed to the unbounded uint32 characteristic 4.14) keeps
+// sending requests while the application changes the value n times: every change must arrive as exactly one event, in
+// order, and the stream must stay decryptable.
+func (w *world) eventStorm(cn, ns string) string {
+	cc := w.conns[cn]
+	if cc == nil || cc.dead {
+		return "STORM=noconn"
+	}
+	n, _ := strconv.Atoi(ns)
+	c := w.find("4.14")
+	if c == nil {
+		return "STORM=nochar"
+	}
+	base := 1000000
+	stop := make(chan struct{})
+	done := make(chan string, 1)
+	go func() {
+		for {
+			select {
+			case <-stop:
+				done <- ""
+				return
+			default:
+			}
+			if _, err := cc.request("GET", "/characteristics?id=1.5", "", nil); err != nil {
+				done <- "request-failed:" + err.Error()
+				return
+			}
+		}
+	}()
+	for i := 1; i <= n; i++ {
+		c.UpdateValue(base + i)
+		if i%8 == 0 {
+			time.Sleep(200 * time.Microsecond)
+		}
+	}
+	time.Sleep(30 * time.Millisecond)
+	close(stop)
+	if e := <-done; e != "" {
+		return "STORM=" + strings.Replace(e, " ", "_", -1)
+	}
+	// everything that is still on its way gets its time (a loaded machine must not look like a lost event)
+	for waited := 0; waited < 60 && len(cc.events) < n && !cc.dead; waited++ {
+		cc.drainEvents(50 * time.Millisecond)
+	}
+	if !cc.dead {
+		cc.request("GET", "/characteristics?id=1.5", "", nil)
+	}
+	next := 1
+	for _, e := range cc.events {
+		var r struct {
+			Characteristics []struct {
+				Aid, Iid int
+				Value    interface{}
+			} `json:"characteristics"`
+		}
+		if json.Unmarshal([]byte(e), &r) != nil || len(r.Characteristics) != 1 {
+			return "STORM=unparsable-event"
+		}
+		v, _ := r.Characteristics[0].Value.(float64)
+		if r.Characteristics[0].Aid != 4 || r.Characteristics[0].Iid != 14 {
+			continue
+		}
+		if int(v) != base+next {
+			return fmt.Sprintf("STORM=change-%d-of-%d-not-notified-in-order(got-%d)", next, n, int(v)-base)
+		}
+		next++
+	}
+	cc.events = nil
+	if next != n+1 {
+		return fmt.Sprintf("STORM=only-%d-of-%d-changes-notified", next-1, n)
+	}
+	return "STORM=ok"
 }
